@@ -40,19 +40,12 @@ func VerifSOTapOutput(s *UDPSession, tap func(buf []byte, size int) bool) {
 	}
 }
 
-// VerifSOUpdate does what UDPSession.update does, minus re-scheduling itself.
+// VerifSOUpdate runs the session's REAL update callback once; its re-submission to the (inert:
+// zero value, Put only appends) SystemTimedSched is taken back out.
 func VerifSOUpdate(s *UDPSession) {
-	select {
-	case <-s.die:
-	default:
-		s.mu.Lock()
-		s.kcp.flush(IKCP_FLUSH_FULL)
-		waitsnd := s.kcp.WaitSnd()
-		if waitsnd < int(s.kcp.snd_wnd) {
-			s.notifyWriteEvent()
-		}
-		s.mu.Unlock()
-	}
+	VerifSchedTake(SystemTimedSched)
+	s.update()
+	VerifSchedTake(SystemTimedSched)
 }
 
 // VerifSOPacketInput feeds one datagram into the session's receive path in the caller's
